@@ -196,6 +196,13 @@ let handle ws =
     let st = chacha20_init (bytes_of_hex key) (bytes_of_hex nonce) (bign_of_hex (Printf.sprintf "%x" (int_of_string counter))) in
     let (st', ks) = chacha20_keystream (nat (int_of_string nb)) st in
     hx ks ^ " " ^ Printf.sprintf "%08x" (int_of_n (List.nth st' 12))
+  | ["chachas"; key; nonce; counter; counts] ->
+    (* the same context fed through several chacha20_generate_keystream calls; compared with the one call for the sum *)
+    let ns = List.map int_of_string (String.split_on_char ',' counts) in
+    let st = chacha20_init (bytes_of_hex key) (bytes_of_hex nonce) (bign_of_hex (Printf.sprintf "%x" (int_of_string counter))) in
+    let (st', ks) = List.fold_left (fun (st, acc) n -> let (st', r) = chacha20_keystream (nat n) st in (st', acc @ r)) (st, []) ns in
+    let (st1, ks1) = chacha20_keystream (nat (List.fold_left (+) 0 ns)) st in
+    both ks ks1 ^ " " ^ Printf.sprintf "%08x" (int_of_n (List.nth st' 12)) ^ (if st' = st1 then "" else " MODEL-STATE-DIFFER")
   | [("hmenc" | "hmdec" | "hmdecq") as op; mode; key; iv; aad; cs] ->
     let key = bytes_of_hex key and iv = bytes_of_hex iv and aad = bytes_of_hex aad and cs = chunks_of cs in
     if ilen key <> 48 || ilen iv <> 16 then "ERR" else
